@@ -256,7 +256,7 @@ func TestForeignHellos(t *testing.T) {
 			sc := newScriptConn(sent)
 			var opts []ech.Option
 			if keySets[ksn] != nil {
-				opts = append(opts, ech.WithKeys(keySets[ksn]))
+				opts = append(opts, keyOptions(keySets[ksn])...)
 			}
 			c, err := ech.NewConn(t.Context(), sc, opts...)
 			if err != nil {
